@@ -1227,6 +1227,31 @@ class TGen(Gen):
         return "\n".join(lines) + "\n", truth
 
 
+CYCLIC_DECLS = [
+    "interface A extends A { x: string }\nexport default defineComponent((props: A) => () => null);",
+    "interface A extends B { x: string }\ninterface B extends A { y: number }\nexport default defineComponent((props: A) => () => null);",
+    "type A = A;\nexport default defineComponent((props: A) => () => null);",
+    "type A = B & { x: 1 }; type B = A;\nexport default defineComponent((props: A) => () => null);",
+    "type A = { k: A['k'] };\nexport default defineComponent((props: { p: A['k'] }) => () => null);",
+    "interface E extends E { (e: 'a'): void }\nexport default defineComponent((props: {}, ctx: SetupContext<E>) => () => null);",
+    "type U = U | string;\nexport default defineComponent((props: { p: U }) => () => null);",
+    "type K = K;\nexport default defineComponent((props: Pick<{ a: 1 }, K>) => () => null);",
+    "type A = Partial<A>;\nconst C = defineComponent((props: A) => () => null);",
+    "interface I { a: J['b'] }\ninterface J { b: I['a'] }\nexport default defineComponent((props: { p: I['a'] }) => () => null);",
+]
+
+
+def gen_cyclic_cases(start_id=0):
+    """self- and mutually-referential declarations (C08's quantifier names them): not TypeScript
+    programs, but parseable"""
+    out = []
+    for i, body in enumerate(CYCLIC_DECLS):
+        for opts in ('{"resolveType": true}', '{"resolveType": false}'):
+            out.append({"id": start_id + len(out), "src": "import { defineComponent, SetupContext } from 'vue';\n" + body + "\n",
+                        "syntax": "tsx", "options": opts, "stream": "cyclic", "feat": ["cyclic", "cyclic:%d" % i]})
+    return out
+
+
 def gen_types_cases(seed, n, start_id=0):
     out = []
     for i in range(n):
